@@ -28,8 +28,11 @@ Round 2 (end of the file): `GuardsOffN` is DERIVED from the inputs.
   depends on `λ_min(A)`, `λ_min(P)` only ⇒ optimality for every `k` the loop reaches, NO hypothesis on
   intermediates.  `C12_witness_three_steps`: `k = 3` on `tridiag(-1, 2, -1)`.
 * `C12_dirs_eq_krylov`: `span {p_i} = K_k(MA, M r0)`.
-* `C12_guard_clause_needed`: the statement WITHOUT a lower bound on the scale is false of the code
-  (`A = 1e-41 · tridiag(-1, 2, -1)`): the guards compare with the absolute constant `1e-40`.
+* Round 2b (after the repair 1a4d949 of `do_safe_div`: exact zero test): the mask `‖r̂‖ < 1e-40` is the
+  only guard left.  `C12_optimal_mask` (any batch: "column not converged below 1e-40"),
+  `C12_optimal_single` (one right-hand side, every `tol ≥ 1e-40`, no constants), `C12_optimal_any`
+  (every `tol ≥ 0`, every batch, NO hypothesis: the output is the optimal iterate of some `k' ≤ k`, and
+  `k' < k` only for a column already converged below `1e-40`), `C12_tiny_scale_regression`.
 -/
 
 open CG
@@ -210,7 +213,7 @@ theorem C12_is_textbook_cg (A : Matrix (Fin n) (Fin n) 𝕜) (P : Option (Matrix
       (cgSeq (Matrix.toEuclideanLin A) (precLin P) (B j) (X0 j)
         (runBatchedCG (matArr A) (colsArr B) (colsArr X0) maxIters tol (P.map matArr)).k).x := by
   rw [run_k] at hg ⊢
-  exact gRun_eq_cgSeq hb hg
+  exact gRun_eq_cgSeq smallR_pos hb hg
 
 /-- **Krylov optimality** (𝕜 = ℝ or ℂ, any `n`, any number of columns, any `x0`, any
 `max_iters`, `tol`).  `A` Hermitian positive definite, preconditioner `None` or Hermitian positive
@@ -362,13 +365,14 @@ theorem C12_optimal_inputs {A : Matrix (Fin n) (Fin n) 𝕜} (hA : A.PosDef)
     tol_admissible
   rw [run_k]
   obtain ⟨h1, h2, h3⟩ := xOut_optimal hA hP B X0 maxIters ((tol : ℝ) : 𝕜) 0 hb hg hxs
-  exact ⟨hg, gRun_eq_cgSeq hb hg, h1, h2, h3⟩
+  exact ⟨hg, gRun_eq_cgSeq smallR_pos hb hg, h1, h2, h3⟩
 
 /-- **for Hermitian positive definite inputs there is a threshold `τ₀ > 0` depending only on `A` and
 the preconditioner** (explicitly: any `τ₀` admissible for `λ_min(A)`, `λ_min(P)`, e.g.
 `max(1e-40, 1e-20/√λ_min(P), 1e-20/(λ_min(P) √λ_min(A)))`) such that EVERY single-right-hand-side run
 with `tol ≥ τ₀` — any `b ≠ 0`, `x0`, `max_iters` — returns the Krylov-optimal iterate of the step at
-which it stops.  Hypotheses on the inputs only. -/
+which it stops.  Hypotheses on the inputs only.  (Since the repair of `do_safe_div`, `τ₀ = 1e-40` works
+for every `A`, `P`: `C12_optimal_single`; and `C12_optimal_any` covers every `tol ≥ 0`.) -/
 theorem C12_optimal_hpd {A : Matrix (Fin n) (Fin n) 𝕜} (hA : A.PosDef)
     {P : Option (Matrix (Fin n) (Fin n) 𝕜)} (hP : PrecPosDef P) :
     ∃ τ₀ : ℝ, 0 < τ₀ ∧ ∀ (B X0 : Fin 1 → EuclideanSpace 𝕜 (Fin n)) (maxIters : ℕ) (tol : ℝ),
@@ -420,28 +424,132 @@ theorem C12_witness_three_steps :
   rw [show (((1 / 10 : ℝ) : ℝ) : ℝ) = RCLike.ofReal (1 / 10 : ℝ) from rfl, h2]
   exact exS3.1
 
-/-- **the guard hypothesis is needed — genuine scale defect of the code** (clause
-`tiny-operator-scale`): on the Hermitian positive definite `A = 1e-41 · tridiag(-1, 2, -1)` (condition
-number `< 6`), `b = e₀`, `x0 = 0`, `max_iters = 1`, `tol = 1/10`, the model (= the code) returns
-`1e40 · e₀`, and `5e40 · e₀ ∈ x0 + K_1` has strictly smaller energy: the conclusion of `C12_optimal`
-fails.  `do_safe_div` compares `⟪p, A p⟫ = 2e-41` with the ABSOLUTE constant `1e-40`. -/
-theorem C12_guard_clause_needed :
-    exAt.PosDef ∧ oneCol exb3 0 ≠ 0 ∧ Matrix.toEuclideanLin exAt exxt = oneCol exb3 0 ∧
-    ∃ y : EuclideanSpace ℝ (Fin 3),
-      y - oneCol exz3 0 ∈ krylov (precLin (none : Option (Matrix (Fin 3) (Fin 3) ℝ)) ∘ₗ
-          Matrix.toEuclideanLin exAt)
-        (precLin (none : Option (Matrix (Fin 3) (Fin 3) ℝ))
-          (oneCol exb3 0 - Matrix.toEuclideanLin exAt (oneCol exz3 0)))
-        (runBatchedCG (matArr exAt) (colsArr (oneCol exb3)) (colsArr (oneCol exz3)) 1
-          (((1 / 10 : ℝ) : ℝ) : ℝ) ((none : Option (Matrix (Fin 3) (Fin 3) ℝ)).map matArr)).k ∧
-      energy (Matrix.toEuclideanLin exAt) exxt y <
-        energy (Matrix.toEuclideanLin exAt) exxt
-          (xOut exAt none (oneCol exb3) (oneCol exz3) 1 (((1 / 10 : ℝ) : ℝ) : ℝ) 0) := by
-  refine ⟨exAt_posDef, exb3_ne, exxt_solves, ?_⟩
-  obtain ⟨y, hy1, hy2⟩ := exAt_not_optimal
-  refine ⟨y, ?_, hy2⟩
-  rw [run_k, show (((1 / 10 : ℝ) : ℝ) : ℝ) = RCLike.ofReal (1 / 10 : ℝ) from rfl, exAt_steps]
-  exact hy1
+/-! ## round 2b: after the repair of `do_safe_div` (exact zero test, /repo 1a4d949)
+
+The two guarded divisions now replace a denominator only when it is EXACTLY zero, which for Hermitian
+positive definite `A`, `P` cannot happen while the residual is non-zero (`noBreak_of_posDef`).  The
+only guard left is the `has_converged` mask `‖r̂‖ < 1e-40` (relative to `‖b‖`; it is still in the code).
+`MaskOffN A M ε b x0 k` : `ε ‖b‖ ≤ ‖b - A x_i‖` for the textbook iterates `x_i`, `i < k`. -/
+
+/-- **Krylov optimality, any batch, column `j`** — the hypothesis is reduced to "column `j` has not
+converged below `1e-40` relative to `‖b_j‖` before step `k`" (`MaskOffN`; no condition on `γ`,
+`⟪p, A p⟫`, no constants of `A`, `P`).  `C12_optimal` and `C12_optimal_resid` are special cases. -/
+theorem C12_optimal_mask {A : Matrix (Fin n) (Fin n) 𝕜} (hA : A.PosDef)
+    {P : Option (Matrix (Fin n) (Fin n) 𝕜)} (hP : PrecPosDef P)
+    (B X0 : Fin m → EuclideanSpace 𝕜 (Fin n)) (maxIters : ℕ) (tol : 𝕜) (j : Fin m)
+    (hb : B j ≠ 0)
+    (not_converged : MaskOffN (Matrix.toEuclideanLin A) (precLin P) smallR (B j) (X0 j)
+      (runBatchedCG (matArr A) (colsArr B) (colsArr X0) maxIters tol (P.map matArr)).k)
+    {xs : EuclideanSpace 𝕜 (Fin n)} (hxs : Matrix.toEuclideanLin A xs = B j) :
+    let k := (runBatchedCG (matArr A) (colsArr B) (colsArr X0) maxIters tol (P.map matArr)).k
+    let Kry := krylov (precLin P ∘ₗ Matrix.toEuclideanLin A)
+      (precLin P (B j - Matrix.toEuclideanLin A (X0 j))) k
+    xOut A P B X0 maxIters tol j =
+      (cgSeq (Matrix.toEuclideanLin A) (precLin P) (B j) (X0 j) k).x ∧
+    xOut A P B X0 maxIters tol j - X0 j ∈ Kry ∧
+    (∀ y, y - X0 j ∈ Kry →
+      energy (Matrix.toEuclideanLin A) xs (xOut A P B X0 maxIters tol j) ≤
+        energy (Matrix.toEuclideanLin A) xs y) ∧
+    (∀ y, y - X0 j ∈ Kry →
+      energy (Matrix.toEuclideanLin A) xs y ≤
+        energy (Matrix.toEuclideanLin A) xs (xOut A P B X0 maxIters tol j) →
+      y = xOut A P B X0 maxIters tol j) := by
+  rw [run_k] at not_converged ⊢
+  exact xOut_optimal_mask hA hP B X0 maxIters tol j hb not_converged hxs
+
+/-- **one right-hand side, every `tol ≥ 1e-40`, inputs only**: `A` Hermitian positive definite,
+preconditioner `None` or Hermitian positive definite, `b ≠ 0`.  With `k` the number of steps the loop
+made (any `max_iters`, any `x0`) the returned vector is the `k`-th textbook iterate and the unique
+energy minimiser over `x0 + K_k(MA, M r0)`.  No constants of `A`, `P`, no hypothesis on intermediates:
+`τ₀` of `C12_optimal_hpd` is the fixed constant `1e-40` (the mask of `take_cg_step`). -/
+theorem C12_optimal_single {A : Matrix (Fin n) (Fin n) 𝕜} (hA : A.PosDef)
+    {P : Option (Matrix (Fin n) (Fin n) 𝕜)} (hP : PrecPosDef P)
+    (B X0 : Fin 1 → EuclideanSpace 𝕜 (Fin n)) (hb : B 0 ≠ 0) (maxIters : ℕ) {tol : ℝ}
+    (tol_ge : smallR ≤ tol)
+    {xs : EuclideanSpace 𝕜 (Fin n)} (hxs : Matrix.toEuclideanLin A xs = B 0) :
+    let k := (runBatchedCG (matArr A) (colsArr B) (colsArr X0) maxIters ((tol : ℝ) : 𝕜)
+      (P.map matArr)).k
+    let Kry := krylov (precLin P ∘ₗ Matrix.toEuclideanLin A)
+      (precLin P (B 0 - Matrix.toEuclideanLin A (X0 0))) k
+    xOut A P B X0 maxIters ((tol : ℝ) : 𝕜) 0 =
+      (cgSeq (Matrix.toEuclideanLin A) (precLin P) (B 0) (X0 0) k).x ∧
+    xOut A P B X0 maxIters ((tol : ℝ) : 𝕜) 0 - X0 0 ∈ Kry ∧
+    (∀ y, y - X0 0 ∈ Kry →
+      energy (Matrix.toEuclideanLin A) xs (xOut A P B X0 maxIters ((tol : ℝ) : 𝕜) 0) ≤
+        energy (Matrix.toEuclideanLin A) xs y) ∧
+    (∀ y, y - X0 0 ∈ Kry →
+      energy (Matrix.toEuclideanLin A) xs y ≤
+        energy (Matrix.toEuclideanLin A) xs (xOut A P B X0 maxIters ((tol : ℝ) : 𝕜) 0) →
+      y = xOut A P B X0 maxIters ((tol : ℝ) : 𝕜) 0) := by
+  have hg := maskOffN_single hA hP B X0 hb maxIters tol_ge
+  rw [run_k]
+  exact xOut_optimal_mask hA hP B X0 maxIters ((tol : ℝ) : 𝕜) 0 hb hg hxs
+
+/-- **every `tol` (also `0`), every batch, every `max_iters` — no hypothesis beyond the property's
+premise.**  `A` Hermitian positive definite, preconditioner `None` or Hermitian positive definite,
+`b_j ≠ 0`.  With `k` the number of steps the loop made there is `k' ≤ k` such that the returned column is
+the `k'`-th textbook iterate — the unique energy minimiser over `x0 + K_{k'}(MA, M r0)` — and either
+`k' = k`, or the column had converged: `‖b - A x_{k'}‖ < 1e-40 ‖b‖` (there the `has_converged` mask
+freezes it while other columns, or a tolerance below `1e-40`, keep the loop running). -/
+theorem C12_optimal_any {A : Matrix (Fin n) (Fin n) 𝕜} (hA : A.PosDef)
+    {P : Option (Matrix (Fin n) (Fin n) 𝕜)} (hP : PrecPosDef P)
+    (B X0 : Fin m → EuclideanSpace 𝕜 (Fin n)) (maxIters : ℕ) (tol : 𝕜) (j : Fin m)
+    (hb : B j ≠ 0) {xs : EuclideanSpace 𝕜 (Fin n)} (hxs : Matrix.toEuclideanLin A xs = B j) :
+    let k := (runBatchedCG (matArr A) (colsArr B) (colsArr X0) maxIters tol (P.map matArr)).k
+    ∃ k', k' ≤ k ∧
+      (k' = k ∨ ‖B j - Matrix.toEuclideanLin A (xOut A P B X0 maxIters tol j)‖ < smallR * ‖B j‖) ∧
+      xOut A P B X0 maxIters tol j =
+        (cgSeq (Matrix.toEuclideanLin A) (precLin P) (B j) (X0 j) k').x ∧
+      xOut A P B X0 maxIters tol j - X0 j ∈ krylov (precLin P ∘ₗ Matrix.toEuclideanLin A)
+        (precLin P (B j - Matrix.toEuclideanLin A (X0 j))) k' ∧
+      (∀ y, y - X0 j ∈ krylov (precLin P ∘ₗ Matrix.toEuclideanLin A)
+          (precLin P (B j - Matrix.toEuclideanLin A (X0 j))) k' →
+        energy (Matrix.toEuclideanLin A) xs (xOut A P B X0 maxIters tol j) ≤
+          energy (Matrix.toEuclideanLin A) xs y) ∧
+      (∀ y, y - X0 j ∈ krylov (precLin P ∘ₗ Matrix.toEuclideanLin A)
+          (precLin P (B j - Matrix.toEuclideanLin A (X0 j))) k' →
+        energy (Matrix.toEuclideanLin A) xs y ≤
+          energy (Matrix.toEuclideanLin A) xs (xOut A P B X0 maxIters tol j) →
+        y = xOut A P B X0 maxIters tol j) := by
+  intro k
+  have hAs := isSymmetric_toEuclideanLin hA
+  have hMs := isSymmetric_precLin hP
+  have pA := posDefOp_toEuclideanLin hA
+  have pM := posDefOp_precLin hP
+  obtain ⟨k', hk', hmask, hor, hx⟩ := xOut_final hA hP B X0 maxIters tol j hb
+  have hbpos : 0 < ‖B j‖ := norm_pos_iff.mpr hb
+  have hr : ∀ i < k', (cgSeq (Matrix.toEuclideanLin A) (precLin P) (B j) (X0 j) i).r ≠ 0 := by
+    intro i hi h0
+    have := hmask i hi
+    rw [h0, norm_zero] at this
+    have : 0 < smallR * ‖B j‖ := mul_pos smallR_pos hbpos
+    linarith
+  have hnb := noBreak_of_posDef hAs hMs pA pM k' hr
+  have hinv := cgInv_all hAs hMs k' hnb k' le_rfl
+  refine ⟨k', by rw [show k = _ from run_k _ _ _ _ _ _]; exact hk', ?_, hx, ?_, ?_, ?_⟩
+  · rcases hor with h | h
+    · left; rw [show k = _ from run_k _ _ _ _ _ _]; exact h
+    · right; rw [hx, ← hinv.res]; exact h
+  · rw [hx]; exact x_mem_krylov k'
+  · intro y hy; rw [hx]; exact cg_optimal_krylov hAs hMs pA pM hxs hr hy
+  · intro y hy hle; rw [hx] at hle ⊢; exact cg_optimal_unique hAs hMs pA pM hxs hr hy hle
+
+/-- **regression example** (was `C12_guard_clause_needed`, the witness of the defect
+`tiny-operator-scale` repaired by /repo 1a4d949): on `A = 1e-41 · tridiag(-1, 2, -1)` (condition number
+`< 6`), `b = e₀`, `x0 = 0`, `max_iters = 1`, `tol = 1/10`, the model now makes one step and returns
+`5e40 · e₀`, whose energy is minimal over `x0 + K_1 = span {e₀}`; all hypotheses of `C12_optimal_single`
+hold on it. -/
+theorem C12_tiny_scale_regression :
+    exAt.PosDef ∧ oneCol exb3 0 ≠ 0 ∧ smallR ≤ (1 / 10 : ℝ) ∧
+    Matrix.toEuclideanLin exAt exxt = oneCol exb3 0 ∧
+    (runBatchedCG (matArr exAt) (colsArr (oneCol exb3)) (colsArr (oneCol exz3)) 1
+      (((1 / 10 : ℝ) : ℝ) : ℝ) ((none : Option (Matrix (Fin 3) (Fin 3) ℝ)).map matArr)).k = 1 ∧
+    xOut exAt none (oneCol exb3) (oneCol exz3) 1 (((1 / 10 : ℝ) : ℝ) : ℝ) 0 = !₂[5 * 10 ^ 40, 0, 0] ∧
+    ∀ t : ℝ, energy (Matrix.toEuclideanLin exAt) exxt
+        (xOut exAt none (oneCol exb3) (oneCol exz3) 1 (((1 / 10 : ℝ) : ℝ) : ℝ) 0) ≤
+      energy (Matrix.toEuclideanLin exAt) exxt !₂[t, 0, 0] := by
+  refine ⟨exAt_posDef, exb3_ne, ex3_tol.r, exxt_solves, ?_, exAt_out, exAt_optimal⟩
+  rw [run_k]; exact exAt_steps
 
 end exact
 
@@ -466,4 +574,7 @@ end exact
 #print axioms C12_optimal_inputs
 #print axioms C12_optimal_hpd
 #print axioms C12_witness_three_steps
-#print axioms C12_guard_clause_needed
+#print axioms C12_optimal_mask
+#print axioms C12_optimal_single
+#print axioms C12_optimal_any
+#print axioms C12_tiny_scale_regression
